@@ -58,7 +58,7 @@ FAMILIES = {
     "quick": [("daily", "legacy"), ("billing", "billing"), ("hourly", "default")],
     "thorough": [("daily", "legacy"), ("billing", "billing"), ("hourly", "default"), ("daily", "current"), ("daily", "custommaps"),
                  ("daily", "devmode"), ("hourly", "robust"), ("hourly", "dictseed"), ("hourly", "solar"), ("hourly", "solar_tf"),
-                 ("hourly", "solar_dict"), ("hourly", "supp"), ("caltrack", "caltrack")],
+                 ("hourly", "solar_dict"), ("hourly", "supp"), ("hourly", "mincluster"), ("caltrack", "caltrack")],
 }
 
 
